@@ -276,7 +276,7 @@ func checkC17(cx *Ctx, r *Report) {
 	}{
 		{kSSO, "sso", "provider.authResponseForm", "AssertionConsumerServiceURL", []string{ssoRS}, []string{acsLoc, "const:"}},
 		{kCallback, "callback", "provider.authResponseForm", "AssertionConsumerServiceURL", []string{cbRS}, []string{"ext:iface:models.AuthRequestInt.GetAccessConsumerServiceURL#0"}},
-		{kLogout, "slo", "provider.LogoutResponseForm", "LogoutURL", []string{sloRS}, []string{sloLoc}},
+		{kLogout, "slo", "provider.LogoutResponseForm", "LogoutURL", []string{sloRS}, []string{sloLoc, "const:"}},
 	} {
 		vf := cx.vflow(e.hk)
 		if vf == nil {
